@@ -124,46 +124,59 @@ theorem subset_of_nodup_length : ∀ (l1 l2 : List Val), l1.Nodup → l1 ⊆ l2 
     · have := ih ((List.mem_erase_of_ne hyx).mpr hy)
       simp [this]
 
-/-! ### The map loop, abstracted over the comparison of two values -/
+/-! ### The map loop, abstracted over the comparison of two values and over the keys that are never found -/
 
-def mapLoop (f : Val → Val → DeqR) : (lks lvs rks rvs : List Val) → DeqR
+def mapLoop (skip : Val → Bool) (f : Val → Val → DeqR) : (lks lvs rks rvs : List Val) → DeqR
   | _, [], _, _ => .cont
   | [], _ :: _, _, _ => .panic
   | lk :: lks', lv :: lvs', rks, rvs =>
-    match lookupKey rks rvs lk with
+    match (if skip lk then none else lookupKey rks rvs lk) with
     | none => .retFalse
     | some rv =>
       match f lv rv with
-      | .cont => mapLoop f lks' lvs' rks rvs
+      | .cont => mapLoop skip f lks' lvs' rks rvs
       | x => x
 
-theorem deqMapVals_eq_loop (env : DeqEnv) (mk mv : Node) (π : String) (rks rvs : List Val)
-    (hk : (mk.ptr && !env.ident) = false) : ∀ (lvs lks : List Val),
-    deqMapVals env mk mv π lks lvs rks rvs = mapLoop (fun a b => deqN env mv false false π a b) lks lvs rks rvs
+/-- The keys the emitted lookup never finds: pointers of an independent object, the nil pointer excepted. -/
+def deqSkip (env : DeqEnv) (mk : Node) (k : Val) : Bool := mk.ptr && !env.ident && !k.isNilPtr
+
+theorem deqMapVals_eq_loop (env : DeqEnv) (mk mv : Node) (π : String) (rks rvs : List Val) : ∀ (lvs lks : List Val),
+    deqMapVals env mk mv π lks lvs rks rvs =
+      mapLoop (deqSkip env mk) (fun a b => deqN env mv false false π a b) lks lvs rks rvs
   | [], lks => by cases lks <;> simp [deqMapVals, mapLoop]
   | lv :: lvs, [] => by simp [deqMapVals, mapLoop]
   | lv :: lvs, lk :: lks => by
-    simp only [deqMapVals, mapLoop, hk, Bool.false_eq_true, if_false]
-    cases lookupKey rks rvs lk with
-    | none => rfl
-    | some rv =>
-      simp only []
-      rw [deqMapVals_eq_loop env mk mv π rks rvs hk lvs lks]
-      generalize deqN env mv false false π lv rv = x
-      cases x <;> rfl
+    simp only [deqMapVals, mapLoop, deqSkip]
+    rw [deqMapVals_eq_loop env mk mv π rks rvs lvs lks]
+    by_cases hc : (mk.ptr && !env.ident && !lk.isNilPtr) = true
+    · simp only [hc, if_true]
+    · simp only [hc, if_false, Bool.false_eq_true]
+      cases lookupKey rks rvs lk with
+      | none => rfl
+      | some rv =>
+        simp only [deqSkip]
+        generalize deqN env mv false false π lv rv = x
+        cases x <;> rfl
 
-theorem mapLoop_ne_panic (f : Val → Val → DeqR) (rks rvs : List Val) : ∀ (lks lvs : List Val),
-    lks.length = lvs.length → (∀ lv ∈ lvs, ∀ rv ∈ rvs, f lv rv ≠ .panic) → mapLoop f lks lvs rks rvs ≠ .panic
+theorem skipLookup_some (skip : Val → Bool) (rks rvs : List Val) (k rv : Val)
+    (h : (if skip k = true then none else lookupKey rks rvs k) = some rv) :
+    skip k = false ∧ lookupKey rks rvs k = some rv := by
+  cases hs : skip k <;> simp [hs] at h
+  exact ⟨rfl, h⟩
+
+theorem mapLoop_ne_panic (skip : Val → Bool) (f : Val → Val → DeqR) (rks rvs : List Val) : ∀ (lks lvs : List Val),
+    lks.length = lvs.length → (∀ lv ∈ lvs, ∀ rv ∈ rvs, f lv rv ≠ .panic) → mapLoop skip f lks lvs rks rvs ≠ .panic
   | _, [], _, _ => by simp [mapLoop]
   | [], _ :: _, hl, _ => by simp at hl
   | lk :: lks, lv :: lvs, hl, hf => by
     unfold mapLoop
-    cases hlk : lookupKey rks rvs lk with
+    cases hlk : (if skip lk = true then none else lookupKey rks rvs lk) with
     | none => simp
     | some rv =>
-      have hrv : rv ∈ rvs := (List.of_mem_zip (lookupKey_mem _ _ _ _ hlk)).2
+      have hlk' := (skipLookup_some skip rks rvs lk rv hlk).2
+      have hrv : rv ∈ rvs := (List.of_mem_zip (lookupKey_mem _ _ _ _ hlk')).2
       have h1 := hf lv (by simp) rv hrv
-      have h2 := mapLoop_ne_panic f rks rvs lks lvs (by simpa using hl) (fun a ha b hb => hf a (by simp [ha]) b hb)
+      have h2 := mapLoop_ne_panic skip f rks rvs lks lvs (by simpa using hl) (fun a ha b hb => hf a (by simp [ha]) b hb)
       simp only []
       generalize f lv rv = x at h1 ⊢
       cases x
@@ -171,25 +184,26 @@ theorem mapLoop_ne_panic (f : Val → Val → DeqR) (rks rvs : List Val) : ∀ (
       · simp
       · exact absurd rfl h1
 
-theorem mapLoop_cont_iff (f : Val → Val → DeqR) (rks rvs : List Val) : ∀ (lks lvs : List Val),
+theorem mapLoop_cont_iff (skip : Val → Bool) (f : Val → Val → DeqR) (rks rvs : List Val) : ∀ (lks lvs : List Val),
     lks.length = lvs.length →
-    (mapLoop f lks lvs rks rvs = .cont ↔
-      ∀ k v, (k, v) ∈ List.zip lks lvs → ∃ rv, lookupKey rks rvs k = some rv ∧ f v rv = .cont)
+    (mapLoop skip f lks lvs rks rvs = .cont ↔
+      ∀ k v, (k, v) ∈ List.zip lks lvs → skip k = false ∧ ∃ rv, lookupKey rks rvs k = some rv ∧ f v rv = .cont)
   | _, [], _ => by simp [mapLoop]
   | [], _ :: _, hl => by simp at hl
   | lk :: lks, lv :: lvs, hl => by
-    have ih := mapLoop_cont_iff f rks rvs lks lvs (by simpa using hl)
+    have ih := mapLoop_cont_iff skip f rks rvs lks lvs (by simpa using hl)
     unfold mapLoop
     simp only [List.zip_cons_cons, List.mem_cons, Prod.mk.injEq]
-    cases hlk : lookupKey rks rvs lk with
+    cases hlk : (if skip lk = true then none else lookupKey rks rvs lk) with
     | none =>
       simp only []
       constructor
       · intro h; cases h
       · intro h
-        obtain ⟨rv, h1, _⟩ := h lk lv (Or.inl ⟨rfl, rfl⟩)
-        rw [hlk] at h1; cases h1
+        obtain ⟨hs, rv, h1, _⟩ := h lk lv (Or.inl ⟨rfl, rfl⟩)
+        simp [hs, h1] at hlk
     | some rv =>
+      obtain ⟨hs, hlk'⟩ := skipLookup_some skip rks rvs lk rv hlk
       simp only []
       cases hx : f lv rv with
       | cont =>
@@ -198,7 +212,7 @@ theorem mapLoop_cont_iff (f : Val → Val → DeqR) (rks rvs : List Val) : ∀ (
         constructor
         · intro h k v hkv
           rcases hkv with ⟨h1, h2⟩ | hkv
-          · subst h1; subst h2; exact ⟨rv, hlk, hx⟩
+          · subst h1; subst h2; exact ⟨hs, rv, hlk', hx⟩
           · exact h k v hkv
         · intro h k v hkv
           exact h k v (Or.inr hkv)
@@ -207,61 +221,61 @@ theorem mapLoop_cont_iff (f : Val → Val → DeqR) (rks rvs : List Val) : ∀ (
         constructor
         · intro h; cases h
         · intro h
-          obtain ⟨rv', h1, h2⟩ := h lk lv (Or.inl ⟨rfl, rfl⟩)
-          rw [hlk] at h1; injection h1 with h1; subst h1
+          obtain ⟨_, rv', h1, h2⟩ := h lk lv (Or.inl ⟨rfl, rfl⟩)
+          rw [hlk'] at h1; injection h1 with h1; subst h1
           rw [hx] at h2; cases h2
       | panic =>
         simp only []
         constructor
         · intro h; cases h
         · intro h
-          obtain ⟨rv', h1, h2⟩ := h lk lv (Or.inl ⟨rfl, rfl⟩)
-          rw [hlk] at h1; injection h1 with h1; subst h1
+          obtain ⟨_, rv', h1, h2⟩ := h lk lv (Or.inl ⟨rfl, rfl⟩)
+          rw [hlk'] at h1; injection h1 with h1; subst h1
           rw [hx] at h2; cases h2
 
 /-- One direction of the symmetry of the map loop. -/
-theorem mapLoop_half (f g : Val → Val → DeqR) (lks lvs rks rvs : List Val)
+theorem mapLoop_half (skip : Val → Bool) (f g : Val → Val → DeqR) (lks lvs rks rvs : List Val)
     (hll : lks.length = lvs.length) (hrl : rks.length = rvs.length) (hlr : lks.length = rks.length)
     (hnl : lks.Nodup) (hnr : rks.Nodup)
     (hfg : ∀ lv ∈ lvs, ∀ rv ∈ rvs, f lv rv = g rv lv)
-    (h : ∀ k v, (k, v) ∈ List.zip lks lvs → ∃ rv, lookupKey rks rvs k = some rv ∧ f v rv = .cont) :
-    ∀ k v, (k, v) ∈ List.zip rks rvs → ∃ lv, lookupKey lks lvs k = some lv ∧ g v lv = .cont := by
+    (h : ∀ k v, (k, v) ∈ List.zip lks lvs → skip k = false ∧ ∃ rv, lookupKey rks rvs k = some rv ∧ f v rv = .cont) :
+    ∀ k v, (k, v) ∈ List.zip rks rvs → skip k = false ∧ ∃ lv, lookupKey lks lvs k = some lv ∧ g v lv = .cont := by
   have hsub : lks ⊆ rks := by
     intro k hk
     obtain ⟨v, hv⟩ := lookupKey_of_mem lks lvs k hll hk
-    obtain ⟨rv, hrv, _⟩ := h k v (lookupKey_mem _ _ _ _ hv)
+    obtain ⟨_, rv, hrv, _⟩ := h k v (lookupKey_mem _ _ _ _ hv)
     exact (List.of_mem_zip (lookupKey_mem _ _ _ _ hrv)).1
   have hsup : rks ⊆ lks := subset_of_nodup_length lks rks hnl hsub (by omega)
   intro k v hkv
   have hk : k ∈ lks := hsup (List.of_mem_zip hkv).1
   obtain ⟨lv, hlv⟩ := lookupKey_of_mem lks lvs k hll hk
   have hmem := lookupKey_mem _ _ _ _ hlv
-  obtain ⟨rv, hrv, hc⟩ := h k lv hmem
+  obtain ⟨hs, rv, hrv, hc⟩ := h k lv hmem
   have : lookupKey rks rvs k = some v := lookupKey_nodup rks rvs k v hnr hkv
   rw [this] at hrv
   injection hrv with hrv
   subst hrv
-  refine ⟨lv, hlv, ?_⟩
+  refine ⟨hs, lv, hlv, ?_⟩
   rw [← hfg lv (List.of_mem_zip hmem).2 v (List.of_mem_zip hkv).2]
   exact hc
 
-theorem mapLoop_sym (f : Val → Val → DeqR) (lks lvs rks rvs : List Val)
+theorem mapLoop_sym (skip : Val → Bool) (f : Val → Val → DeqR) (lks lvs rks rvs : List Val)
     (hll : lks.length = lvs.length) (hrl : rks.length = rvs.length) (hlr : lks.length = rks.length)
     (hnl : lks.Nodup) (hnr : rks.Nodup)
     (hsym : ∀ lv ∈ lvs, ∀ rv ∈ rvs, f lv rv = f rv lv)
     (hnp : ∀ lv ∈ lvs, ∀ rv ∈ rvs, f lv rv ≠ .panic) :
-    mapLoop f lks lvs rks rvs = mapLoop f rks rvs lks lvs := by
-  have h1 := mapLoop_ne_panic f rks rvs lks lvs hll hnp
-  have h2 := mapLoop_ne_panic f lks lvs rks rvs hrl (fun rv hrv lv hlv => by rw [← hsym lv hlv rv hrv]; exact hnp lv hlv rv hrv)
-  have h3 := mapLoop_cont_iff f rks rvs lks lvs hll
-  have h4 := mapLoop_cont_iff f lks lvs rks rvs hrl
-  have hiff : mapLoop f lks lvs rks rvs = .cont ↔ mapLoop f rks rvs lks lvs = .cont := by
+    mapLoop skip f lks lvs rks rvs = mapLoop skip f rks rvs lks lvs := by
+  have h1 := mapLoop_ne_panic skip f rks rvs lks lvs hll hnp
+  have h2 := mapLoop_ne_panic skip f lks lvs rks rvs hrl (fun rv hrv lv hlv => by rw [← hsym lv hlv rv hrv]; exact hnp lv hlv rv hrv)
+  have h3 := mapLoop_cont_iff skip f rks rvs lks lvs hll
+  have h4 := mapLoop_cont_iff skip f lks lvs rks rvs hrl
+  have hiff : mapLoop skip f lks lvs rks rvs = .cont ↔ mapLoop skip f rks rvs lks lvs = .cont := by
     rw [h3, h4]
     constructor
-    · exact mapLoop_half f f lks lvs rks rvs hll hrl hlr hnl hnr hsym
-    · exact mapLoop_half f f rks rvs lks lvs hrl hll hlr.symm hnr hnl (fun rv hrv lv hlv => (hsym lv hlv rv hrv).symm)
-  generalize mapLoop f lks lvs rks rvs = x at h1 hiff ⊢
-  generalize mapLoop f rks rvs lks lvs = y at h2 hiff ⊢
+    · exact mapLoop_half skip f f lks lvs rks rvs hll hrl hlr hnl hnr hsym
+    · exact mapLoop_half skip f f rks rvs lks lvs hrl hll hlr.symm hnr hnl (fun rv hrv lv hlv => (hsym lv hlv rv hrv).symm)
+  generalize mapLoop skip f lks lvs rks rvs = x at h1 hiff ⊢
+  generalize mapLoop skip f rks rvs lks lvs = y at h2 hiff ⊢
   cases x <;> cases y <;> simp_all
 
 /-! ### Leaves -/
@@ -539,19 +553,15 @@ theorem symV_map (nl : Bool) (lks lvs : List Val) (ih : ∀ v ∈ lvs, SymN opts
       · have hlen : lks.length = rks.length := by simpa using hne
         have hne' : (rks.length != lks.length) = false := by simp [hlen]
         simp only [hne, hne', if_false, Bool.false_eq_true]
-        by_cases hk : (mk.ptr && !(fixedEnv opts ident).ident) = true
-        · rw [deqMapVals_ptrkey _ _ _ _ _ _ _ _ hk hllen, deqMapVals_ptrkey _ _ _ _ _ _ _ _ hk hrlen]
-          cases lks <;> cases rks <;> simp at hlen <;> simp
-        · have hk' : (mk.ptr && !(fixedEnv opts ident).ident) = false := by simpa using hk
-          rw [deqMapVals_eq_loop _ _ _ _ _ _ hk', deqMapVals_eq_loop _ _ _ _ _ _ hk']
-          have hpt : ∀ lv ∈ lvs, ∀ rv ∈ rvs,
-              deqN (fixedEnv opts ident) mv false false π lv rv = deqN (fixedEnv opts ident) mv false false π rv lv ∧
-              deqN (fixedEnv opts ident) mv false false π lv rv ≠ .panic := fun lv hlv' rv hrv' =>
-            ih lv hlv' rv mv false false π (WTall_mem mv lvs lv hlv hlv') (WTall_mem mv rvs rv hrv hrv')
-              (MapKeysOKs_mem lvs lv hkl.2 hlv') (MapKeysOKs_mem rvs rv hkr.2 hrv')
-          refine ⟨mapLoop_sym _ lks lvs rks rvs hllen hrlen hlen (keysDistinct_nodup _ hkl.1)
-            (keysDistinct_nodup _ hkr.1) (fun lv h1 rv h2 => (hpt lv h1 rv h2).1) (fun lv h1 rv h2 => (hpt lv h1 rv h2).2), ?_⟩
-          exact mapLoop_ne_panic _ rks rvs lks lvs hllen (fun lv h1 rv h2 => (hpt lv h1 rv h2).2)
+        rw [deqMapVals_eq_loop, deqMapVals_eq_loop]
+        have hpt : ∀ lv ∈ lvs, ∀ rv ∈ rvs,
+            deqN (fixedEnv opts ident) mv false false π lv rv = deqN (fixedEnv opts ident) mv false false π rv lv ∧
+            deqN (fixedEnv opts ident) mv false false π lv rv ≠ .panic := fun lv hlv' rv hrv' =>
+          ih lv hlv' rv mv false false π (WTall_mem mv lvs lv hlv hlv') (WTall_mem mv rvs rv hrv hrv')
+            (MapKeysOKs_mem lvs lv hkl.2 hlv') (MapKeysOKs_mem rvs rv hkr.2 hrv')
+        refine ⟨mapLoop_sym _ _ lks lvs rks rvs hllen hrlen hlen (keysDistinct_nodup _ hkl.1)
+          (keysDistinct_nodup _ hkr.1) (fun lv h1 rv h2 => (hpt lv h1 rv h2).1) (fun lv h1 rv h2 => (hpt lv h1 rv h2).2), ?_⟩
+        exact mapLoop_ne_panic _ _ rks rvs lks lvs hllen (fun lv h1 rv h2 => (hpt lv h1 rv h2).2)
   | basic i => have := WT_basic_isScal _ _ hl; simp [isScal] at this
   | _ => simp [WT, Node.withPtr] at hl
 
@@ -710,11 +720,10 @@ theorem reflV_map (nl : Bool) (lks lvs : List Val) (ih : ∀ v ∈ lvs, ReflN op
     injection hll with h1 h2 h3
     subst h1 h2 h3
     simp only [MapKeysOK, Bool.and_eq_true] at hk
-    have hk' : (mk.ptr && !(fixedEnv opts true).ident) = false := by simp
     have : deqMapVals (fixedEnv opts true) mk mv π lks lvs lks lvs = .cont := by
-      rw [deqMapVals_eq_loop _ _ _ _ _ _ hk', mapLoop_cont_iff _ _ _ _ _ hllen]
+      rw [deqMapVals_eq_loop, mapLoop_cont_iff _ _ _ _ _ _ hllen]
       intro k v hkv
-      refine ⟨v, lookupKey_nodup lks lvs k v (keysDistinct_nodup _ hk.1) hkv, ?_⟩
+      refine ⟨by simp [deqSkip], v, lookupKey_nodup lks lvs k v (keysDistinct_nodup _ hk.1) hkv, ?_⟩
       have hv : v ∈ lvs := (List.of_mem_zip hkv).2
       exact ih v hv mv false false π (WTall_mem mv lvs v hlv hv) (MapKeysOKs_mem lvs v hk.2 hv)
     simp only [deqV]
